@@ -6,7 +6,7 @@ CONSTANTS
   ErrVals = {"e"}
   Metas = {"m0", "m1"}
   Forms = {"py"}
-  DelPhantom = TRUE
+  DelPhantom = FALSE
   ExtClash = FALSE
   CloseTwice = FALSE
   NpHeader = FALSE
@@ -25,5 +25,5 @@ INVARIANT C37_NoCopyBeforeDeepcopy
 INVARIANT C36_Meta
 PROPERTY C39_NoWrite
 PROPERTY C39_Refused
-CONSTRAINT BoundCopy
+CONSTRAINT BoundNoCopy
 CHECK_DEADLOCK FALSE
